@@ -453,7 +453,9 @@ def catalogue(tier):
         for sub in ([(0, 1), (1, 2), (2, 3), (0, 3)], [(0, 1), (0, 2), (0, 3), (1, 2)], [(0, 1), (1, 2), (2, 3), (1, 3)]):
             add(task_reorder, sh=G.shape(4, G.orient(sub, 'alt'), nr=2), mode='both')
     # MINC
-    mincs = [([0.2, 0.8], 50., 1, None), ([0.1, 0.3, 0.6], 30., 2, None), ([0.1, 0.3, 0.6], 30., 2, [1])]
+    # (lists summing to 1, to less than 1 and to more than 1: the requested fractions are f_k / sum(f))
+    mincs = [([0.2, 0.8], 50., 1, None), ([0.1, 0.3, 0.6], 30., 2, None), ([0.1, 0.3, 0.6], 30., 2, [1]),
+             ([0.1, 0.2, 0.3], 30., 1, None), ([1., 3.], 50., 1, None)]
     if tier != 'quick':
         mincs += [([0.05, 0.15, 0.3, 0.5], [20., 40., 60.], 3, None), ([1., 2., 3., 4., 10.], 100., 1, [0]),
                   ([0.05, 0.1, 0.15, 0.2, 0.2, 0.3], 50., 3, None), ([0.3, 0.7], [10., 25.], 2, [0, 1])]
